@@ -14,6 +14,7 @@ import (
 	"fmt"
 	"os"
 	"runtime"
+	"sync/atomic"
 	"time"
 	"unsafe"
 
@@ -357,6 +358,125 @@ func gcRetainShape(prefix string, labels bool) {
 			}
 		}
 	})
+}
+
+// ---- moves under a concurrently running collector ----
+
+// gcBarrier: entities whose component is the only reference to a heap object are moved between two
+// tables, last row first, while another goroutine runs the collector back to back. A move that
+// copies a pointer-carrying component without the collector noticing (a raw byte copy instead of
+// a typed one) loses the object when the mark phase has already scanned the destination and not
+// yet the source. Table shapes: the pointer component has the lowest id, the highest id, or sits
+// between pointer-free components.
+type gcBallast struct {
+	Next *gcBallast
+	Data [4]*int
+}
+
+//go:noinline
+func buildBallast(n int) *gcBallast {
+	var head *gcBallast
+	for i := 0; i < n; i++ {
+		v := i
+		head = &gcBallast{Next: head, Data: [4]*int{&v, &v, &v, &v}}
+	}
+	return head
+}
+
+func gcBarrier(seconds float64) {
+	runtime.GOMAXPROCS(max(4, runtime.GOMAXPROCS(0)))
+	// pointer-rich ballast: long mark phases, so that they overlap with the moves
+	ballast := buildBallast(300000)
+	defer runtime.KeepAlive(ballast)
+	type shape struct {
+		name string
+		reg  func(w *ecs.World) (ref, other, extra ecs.ID)
+	}
+	shapes := []shape{
+		{"pointer component first", func(w *ecs.World) (ecs.ID, ecs.ID, ecs.ID) {
+			r := ecs.ComponentID[gcHolder](w)
+			return r, ecs.ComponentID[gcPlain1](w), ecs.ComponentID[gcPlain2](w)
+		}},
+		{"pointer component last", func(w *ecs.World) (ecs.ID, ecs.ID, ecs.ID) {
+			o, x := ecs.ComponentID[gcPlain1](w), ecs.ComponentID[gcPlain2](w)
+			return ecs.ComponentID[gcHolder](w), o, x
+		}},
+		{"pointer component in the middle", func(w *ecs.World) (ecs.ID, ecs.ID, ecs.ID) {
+			o := ecs.ComponentID[gcPlain1](w)
+			r := ecs.ComponentID[gcHolder](w)
+			return r, o, ecs.ComponentID[gcPlain2](w)
+		}},
+	}
+	stop := make(chan struct{})
+	done := make(chan struct{})
+	go func() {
+		defer close(done)
+		for {
+			select {
+			case <-stop:
+				return
+			default:
+				runtime.GC()
+			}
+		}
+	}()
+	// one world per shape, alive for the whole run: every payload stays referenced by a living entity
+	type run struct {
+		name  string
+		w     *ecs.World
+		es    []ecs.Entity
+		ref   ecs.ID
+		extra ecs.ID
+	}
+	const n = 256
+	var lost int64
+	runs := []*run{}
+	for _, sh := range shapes {
+		w := ecs.NewWorld(ecs.NewConfig().WithCapacityIncrement(64))
+		ref, other, extra := sh.reg(&w)
+		r := &run{name: sh.name, w: &w, ref: ref, extra: extra, es: make([]ecs.Entity, n)}
+		for i := range r.es {
+			r.es[i] = w.NewEntity(ref, other)
+			p := newPayload(uint64(7000 + i))
+			runtime.SetFinalizer(p, func(*gcPayload) { atomic.AddInt64(&lost, 1) })
+			(*gcHolder)(w.Get(r.es[i], ref)).P = p
+		}
+		runs = append(runs, r)
+	}
+	fail := func() {
+		close(stop)
+		<-done
+		gcFail("barrier: %d objects referenced only by components of living entities were collected while the entities were moved between tables under a concurrently running collector (tables: pointer component first / last / in the middle)", atomic.LoadInt64(&lost))
+	}
+	deadline := time.Now().Add(time.Duration(seconds * float64(time.Second)))
+	rounds := 0
+	for time.Now().Before(deadline) {
+		for _, r := range runs {
+			for i := n - 1; i >= 0; i-- { // last row first
+				r.w.Add(r.es[i], r.extra)
+			}
+			for i := 0; i < n; i++ { // again the last row of the (other) table first
+				r.w.Remove(r.es[i], r.extra)
+			}
+		}
+		rounds++
+		if atomic.LoadInt64(&lost) != 0 {
+			fail()
+		}
+	}
+	close(stop)
+	<-done
+	settle()
+	if atomic.LoadInt64(&lost) != 0 {
+		gcFail("barrier: %d objects referenced only by components of living entities were collected while the entities were moved between tables under a concurrently running collector", atomic.LoadInt64(&lost))
+	}
+	for _, r := range runs {
+		for i, e := range r.es {
+			checkPayload((*gcHolder)(r.w.Get(e, r.ref)).P, uint64(7000+i), "barrier/"+r.name)
+		}
+	}
+	runtime.KeepAlive(runs)
+	fmt.Printf("barrier ok rounds=%d\n", rounds)
 }
 
 // ---- call-site shapes with non-escaping literals ----
